@@ -476,6 +476,21 @@ def _eval_call (repo, module, e, env, cls):
     if fn.id in ('list', 'tuple', 'set', 'sorted', 'str', 'int') and len(args) == 1:
       try: return {'list': list, 'tuple': tuple, 'set': set, 'sorted': sorted, 'str': str, 'int': int}[fn.id](args[0])
       except Exception: raise _Unknown()
+    if fn.id in ('all', 'any') and len(args) == 1:
+      try: vals = list(args[0])
+      except Exception: raise _Unknown()
+      if any(v is OPAQUE for v in vals):
+        # decided anyway when a known element settles it
+        known = [v for v in vals if v is not OPAQUE]
+        if fn.id == 'all' and any(not v for v in known): return False
+        if fn.id == 'any' and any(v for v in known): return True
+        raise _Unknown()
+      return all(vals) if fn.id == 'all' else any(vals)
+    if fn.id == 'next' and len(args) == 2:
+      try:
+        vals = list(args[0])
+        return vals[0] if vals else args[1]
+      except Exception: raise _Unknown()
   if isinstance(fn, ast.Attribute) and fn.attr in _PURE_METHODS and not e.keywords:
     base = eval_env2(repo, module, fn.value, env, cls)
     if type(base) in (str, bytes, list, tuple, dict, set, frozenset):
@@ -520,6 +535,23 @@ def eval_env2 (repo, module, e, env, cls=None):
     t = eval_env2(repo, module, e.test, env, cls)
     if t is OPAQUE: raise _Unknown()
     return eval_env2(repo, module, e.body if t else e.orelse, env, cls)
+  if isinstance(e, (ast.ListComp, ast.GeneratorExp, ast.SetComp)) and len(e.generators) == 1:
+    c0 = e.generators[0]
+    seq = eval_env2(repo, module, c0.iter, env, cls)
+    if seq is OPAQUE: raise _Unknown()
+    try: items = list(seq)
+    except Exception: raise _Unknown()
+    if len(items) > 64: raise _Unknown()
+    out = []
+    for it in items:
+      ne = _bind_target(c0.target, it, env)
+      keep = True
+      for cond in c0.ifs:
+        v = eval_env2(repo, module, cond, ne, cls)
+        if v is OPAQUE: raise _Unknown()
+        if not v: keep = False; break
+      if keep: out.append(eval_env2(repo, module, e.elt, ne, cls))
+    return set(out) if isinstance(e, ast.SetComp) else out
   if isinstance(e, ast.Call): return _eval_call(repo, module, e, env, cls)
   if isinstance(e, ast.Subscript):
     base = eval_env2(repo, module, e.value, env, cls)
@@ -547,7 +579,7 @@ def _eval_struct (repo, module, e, env, cls):
       except _Unknown: pass
   return eval_env(repo, module, e, sub, cls)
 
-def paths_under (repo, module, g, env, start, stops, cls=None, limit=200, track=True, on_node=None):
+def paths_under (repo, module, g, env, start, stops, cls=None, limit=200, track=True, on_node=None, track_start=False):
   """enumerate paths start -> any node in `stops` following only branches
   consistent with env; simple local assignments update a per-path copy of the
   environment (constant propagation; unknown values drop the binding).
@@ -594,7 +626,7 @@ def paths_under (repo, module, g, env, start, stops, cls=None, limit=200, track=
       except Exception: v = None
       if v is not None: succ = [(m, l) for m, l in n.succ if l == v]
     ne = e
-    if track and n.kind == 'stmt' and isinstance(n.ast, (ast.Assign, ast.AugAssign)) and n is not start:
+    if track and n.kind == 'stmt' and isinstance(n.ast, (ast.Assign, ast.AugAssign)) and (n is not start or (track_start and len(path) == 1)):
       ne = _assign_env(repo, module, n.ast, e, cls)
     for m, l in succ:
       if l == 'exc': continue
